@@ -3,6 +3,7 @@ import BreezyVerif.Lemmas.C36Esc
 import BreezyVerif.Lemmas.C36Utf8
 import BreezyVerif.Lemmas.C36Url
 import BreezyVerif.Lemmas.C36Cfg
+import BreezyVerif.Lemmas.C36CfgFile
 /-!
 C36 — git identifier mappings round-trip: theorems.
 
@@ -351,11 +352,14 @@ theorem ref_tag_roundtrip (ref : NBytes) (name : Str) (h : refToTagName ref = .o
 theorem pct_decode_encode (bs : NBytes) (hb : isBytes bs = true) : pctDecode (pctEncode [] bs) = bs :=
   pctDecode_pctEncode [] (by simp) bs hb
 
-/-- the parameter part of the round trip, for any comma-free location -/
+/-- the parameter part of the round trip, for any location without a comma in
+its last path segment (commas elsewhere in the URL do not matter:
+`split_segment_parameters` only looks at the last segment) -/
 theorem addRefParams_roundtrip (loc' : Str) (branch : Option Str) (ref : Option NBytes) (u : Str)
-    (hc : 44 ∉ loc') (hb : ∀ r, ref = some r → isBytes r = true)
+    (hcf : lastSegCommaFree loc' = true) (hb : ∀ r, ref = some r → isBytes r = true)
     (h : addRefParams loc' branch ref = .ok u) :
     bzrUrlToGitUrl u = .ok (loc', cleanBR (normBR branch ref)) := by
+  obtain ⟨hc, hc2⟩ := (lastSegCommaFree_iff loc').1 hcf
   have hplain : bzrUrlToGitUrl loc' = .ok (loc', none, none) := by
     unfold bzrUrlToGitUrl
     rw [splitSegParams_none loc' hc]
@@ -374,7 +378,7 @@ theorem addRefParams_roundtrip (loc' : Str) (branch : Option Str) (ref : Option 
       subst h
       have hv := pctEncode_chars r hbytes
       unfold bzrUrlToGitUrl
-      rw [splitSegParams_joined loc' kRef _ hc key_chars.2
+      rw [splitSegParams_joined loc' kRef _ hc2 key_chars.2
         (fun c hc => ⟨(hv c hc).2.1, (hv c hc).2.2.1, (hv c hc).2.2.2.1⟩)]
       have h1 : paramGet [(kRef, pctEncode [] r)] kBranch = none := by
         simp [paramGet, kRef, kBranch]
@@ -412,7 +416,7 @@ theorem addRefParams_roundtrip (loc' : Str) (branch : Option Str) (ref : Option 
               have hv := pctEncode_chars bs (encodeUtf8_isBytes hbs)
               rw [he] at hv
               unfold bzrUrlToGitUrl
-              rw [splitSegParams_joined loc' kBranch e hc key_chars.1
+              rw [splitSegParams_joined loc' kBranch e hc2 key_chars.1
                 (fun c hc => ⟨(hv c hc).2.1, (hv c hc).2.2.1, (hv c hc).2.2.2.1⟩)]
               have h1 : paramGet [(kBranch, e)] kBranch = some e := by simp [paramGet]
               have h2 : paramGet [(kBranch, e)] kRef = none := by simp [paramGet, kRef, kBranch]
@@ -424,7 +428,7 @@ theorem addRefParams_roundtrip (loc' : Str) (branch : Option Str) (ref : Option 
 every branch name and every ref (any bytes): splitting the produced breezy URL
 gives back the location and the branch/ref in the normal form `normBR`. -/
 theorem url_roundtrip (loc loc' : Str) (branch : Option Str) (ref : Option NBytes) (u : Str)
-    (hloc : normLoc loc = .url loc' ∨ (normLoc loc = .unchanged ∧ loc' = loc)) (hc : 44 ∉ loc')
+    (hloc : normLoc loc = .url loc' ∨ (normLoc loc = .unchanged ∧ loc' = loc)) (hc : lastSegCommaFree loc' = true)
     (hb : ∀ r, ref = some r → isBytes r = true)
     (h : gitUrlToBzrUrl loc branch ref = .ok u) :
     bzrUrlToGitUrl u = .ok (loc', cleanBR (normBR branch ref)) := by
@@ -496,7 +500,7 @@ example : refOk (some (headsPrefix ++ [97, 47, 98])) = true ∧ refOk (some (tag
 /-- **URL round trip, ref level.**  The breezy URL made from a location and a
 branch or ref designates, after splitting, the same location and the same git ref. -/
 theorem url_roundtrip_eff (loc loc' : Str) (branch : Option Str) (ref : Option NBytes) (u : Str)
-    (hloc : normLoc loc = .url loc' ∨ (normLoc loc = .unchanged ∧ loc' = loc)) (hc : 44 ∉ loc')
+    (hloc : normLoc loc = .url loc' ∨ (normLoc loc = .unchanged ∧ loc' = loc)) (hc : lastSegCommaFree loc' = true)
     (hb : ∀ r, ref = some r → isBytes r = true) (hok : refOk ref = true)
     (h : gitUrlToBzrUrl loc branch ref = .ok u) :
     ∃ b' r', bzrUrlToGitUrl u = .ok (loc', b', r') ∧ effRef b' r' = effRef branch ref := by
@@ -525,6 +529,155 @@ theorem url_roundtrip_legacy_witness :
   · exact url_roundtrip [104, 116, 116, 112, 115, 58, 47, 47, 104, 47, 114]
       [104, 116, 116, 112, 115, 58, 47, 47, 104, 47, 114] (some [97, 47, 98]) none _
       (Or.inl (by decide)) (by decide) (by intro r hr; cases hr) rfl
+
+/-! ### 6b. the other direction, and the excluded URL families as witnesses -/
+
+/-- the normal form of a branch/ref pair is a fixed point of the normalisation -/
+theorem normBR_idem (branch : Option Str) (ref : Option NBytes) :
+    cleanBR (normBR (cleanBR (normBR branch ref)).1 (cleanBR (normBR branch ref)).2) =
+      cleanBR (normBR branch ref) := by
+  cases ref with
+  | none =>
+    cases branch with
+    | none => simp [normBR, cleanBR]
+    | some b =>
+      by_cases hb : b = []
+      · simp [normBR, cleanBR, hb]
+      · simp [normBR, cleanBR, hb]
+  | some r =>
+    by_cases h1 : r = headRef ∨ r = []
+    · have : normBR branch (some r) = (none, none) := by simp [normBR, h1]
+      rw [this]; simp [normBR, cleanBR]
+    · cases hrb : refToBranchName (some r) with
+      | error e =>
+        have hunf : normBR branch (some r) = (none, some r) := by
+          unfold normBR; simp only [h1, if_false, hrb]
+        have hunf' : normBR none (some r) = (none, some r) := by
+          unfold normBR; simp only [h1, if_false, hrb]
+        rw [hunf]
+        simp only [cleanBR, reduceCtorEq, if_false]
+        rw [hunf']
+        simp
+      | ok b =>
+        obtain ⟨n, rfl⟩ := refToBranchName_some_ok hrb
+        have hunf : normBR branch (some r) = (some n, none) := by
+          unfold normBR; simp only [h1, if_false, hrb]
+        rw [hunf]
+        by_cases hn : n = []
+        · simp [normBR, cleanBR, hn]
+        · simp [normBR, cleanBR, hn]
+
+/-- one of the two components of a normal form is always absent -/
+theorem normBR_one_none (branch : Option Str) (ref : Option NBytes) (hx : branch = none ∨ ref = none) :
+    (cleanBR (normBR branch ref)).1 = none ∨ (cleanBR (normBR branch ref)).2 = none := by
+  cases ref with
+  | none => right; simp [normBR, cleanBR]
+  | some r =>
+    by_cases h1 : r = headRef ∨ r = []
+    · left; simp [normBR, h1, cleanBR]
+    · cases hrb : refToBranchName (some r) with
+      | error e =>
+        left
+        have hunf : normBR branch (some r) = (none, some r) := by
+          unfold normBR; simp only [h1, if_false, hrb]
+        rw [hunf]; simp [cleanBR]
+      | ok b =>
+        right
+        have hunf : normBR branch (some r) = (b, none) := by
+          unfold normBR; simp only [h1, if_false, hrb]
+        rw [hunf]; simp [cleanBR]
+
+/-- **URL round trip, breezy → git → breezy.**  Every canonical breezy URL `u`
+(what `git_url_to_bzr_url` makes of a normalised location without a comma in
+its last segment and any branch name or ref) is a fixed point: splitting it
+with `bzr_url_to_git_url` and handing the three results back to
+`git_url_to_bzr_url` returns `u` itself. -/
+theorem url_roundtrip_rev (loc' : Str) (branch : Option Str) (ref : Option NBytes) (u : Str)
+    (hnorm : normLoc loc' = .url loc' ∨ normLoc loc' = .unchanged) (hc : lastSegCommaFree loc' = true)
+    (hb : ∀ r, ref = some r → isBytes r = true)
+    (h : gitUrlToBzrUrl loc' branch ref = .ok u) :
+    ∃ l b r, bzrUrlToGitUrl u = .ok (l, b, r) ∧ gitUrlToBzrUrl l b r = .ok u := by
+  have hx : branch = none ∨ ref = none := by
+    unfold gitUrlToBzrUrl gitUrlToBzrUrlG at h
+    split at h
+    · simp at h
+    · cases branch <;> cases ref <;> simp_all
+  have hloc : normLoc loc' = .url loc' ∨ (normLoc loc' = .unchanged ∧ loc' = loc') := by
+    rcases hnorm with h | h
+    · exact Or.inl h
+    · exact Or.inr ⟨h, rfl⟩
+  refine ⟨loc', (cleanBR (normBR branch ref)).1, (cleanBR (normBR branch ref)).2,
+    url_roundtrip loc' loc' branch ref u hloc hc hb h, ?_⟩
+  rw [gitUrlToBzrUrl_eq_addRefParams loc' _ _ hnorm (normBR_one_none branch ref hx),
+    addRefParams_congr loc' _ branch _ ref (normBR_idem branch ref),
+    ← gitUrlToBzrUrl_eq_addRefParams loc' branch ref hnorm hx, h]
+
+example : gitUrlToBzrUrl [104, 116, 116, 112, 115, 58, 47, 47, 104, 47, 97, 44, 98, 47, 114] (some [120, 44, 121]) none =
+    .ok ([104, 116, 116, 112, 115, 58, 47, 47, 104, 47, 97, 44, 98, 47, 114] ++ [44] ++ kBranch ++
+      [61, 120, 37, 50, 67, 121]) := by rfl
+
+/-- excluded family of `hc`: a comma in the *last* segment of the location is
+read as the start of segment parameters — `git_url_to_bzr_url("https://h/r,a=b",
+branch="x")` is accepted, but the location that comes back is `https://h/r` -/
+theorem url_trailing_comma_witness :
+    let loc := [104, 116, 116, 112, 115, 58, 47, 47, 104, 47, 114, 44, 97, 61, 98]
+    lastSegCommaFree loc = false ∧ normLoc loc = .url loc ∧
+      ∃ u, gitUrlToBzrUrl loc (some [120]) none = .ok u ∧
+        (splitSegParams u).map (·.1) = some [104, 116, 116, 112, 115, 58, 47, 47, 104, 47, 114] := by
+  refine ⟨by decide, by decide, _, rfl, by decide⟩
+
+/-- excluded families of `refOk`, at URL level: the ref `refs/heads/refs/x`
+becomes the branch parameter `refs%2Fx`, which designates the ref `refs/x`; the
+ref `refs/heads/` becomes no parameter at all, which designates `HEAD` -/
+theorem url_refOk_witness :
+    let h := [104, 116, 116, 112, 115, 58, 47, 47, 104, 47, 114]   -- "https://h/r"
+    let r1 := headsPrefix ++ refsSlash ++ [120]                       -- "refs/heads/refs/x"
+    refOk (some r1) = false ∧ refOk (some headsPrefix) = false ∧
+    (∃ u b r, gitUrlToBzrUrl h none (some r1) = .ok u ∧ bzrUrlToGitUrl u = .ok (h, b, r) ∧
+        effRef b r = some (refsSlash ++ [120]) ∧ effRef none (some r1) = some r1) ∧
+    (∃ u b r, gitUrlToBzrUrl h none (some headsPrefix) = .ok u ∧ bzrUrlToGitUrl u = .ok (h, b, r) ∧
+        effRef b r = some headRef ∧ effRef none (some headsPrefix) = some headsPrefix) := by
+  have hd1 : refToBranchName (some (headsPrefix ++ refsSlash ++ [120])) = .ok (some (refsSlash ++ [120])) := by
+    unfold refToBranchName
+    have h1 : headsPrefix ++ refsSlash ++ [120] ≠ headRef := by decide
+    have h2 : headsPrefix.isPrefixOf (headsPrefix ++ refsSlash ++ [120]) = true := by decide
+    have h3 : (headsPrefix ++ refsSlash ++ [120]).drop headsPrefix.length = refsSlash ++ [120] := by decide
+    simp only [h1, if_false, h2, if_true, h3, decodeStrict_ascii (refsSlash ++ [120]) (by decide)]
+  have hd2 : refToBranchName (some headsPrefix) = .ok (some []) := by
+    unfold refToBranchName
+    simp [headsPrefix, headRef, List.isPrefixOf, decodeStrict]
+  have hn1 : normBR none (some (headsPrefix ++ refsSlash ++ [120])) = (some (refsSlash ++ [120]), none) := by
+    unfold normBR
+    have : ¬(headsPrefix ++ refsSlash ++ [120] = headRef ∨ headsPrefix ++ refsSlash ++ [120] = []) := by decide
+    simp only [this, if_false, hd1]
+  have hn2 : normBR none (some headsPrefix) = (some [], none) := by
+    unfold normBR
+    have : ¬(headsPrefix = headRef ∨ headsPrefix = []) := by decide
+    simp only [this, if_false, hd2]
+  have hloc : normLoc [104, 116, 116, 112, 115, 58, 47, 47, 104, 47, 114] =
+      .url [104, 116, 116, 112, 115, 58, 47, 47, 104, 47, 114] := by decide
+  refine ⟨?_, ?_, ?_, ?_⟩
+  · unfold refOk; rw [hd1]; decide
+  · unfold refOk; rw [hd2]; decide
+  · have hg : ∃ u, gitUrlToBzrUrl [104, 116, 116, 112, 115, 58, 47, 47, 104, 47, 114] none
+        (some (headsPrefix ++ refsSlash ++ [120])) = .ok u := by
+      unfold gitUrlToBzrUrl gitUrlToBzrUrlG
+      simp only [hloc, addRefParams, hn1]
+      exact ⟨_, rfl⟩
+    obtain ⟨u, hu⟩ := hg
+    have hr := url_roundtrip _ _ none (some (headsPrefix ++ refsSlash ++ [120])) u (Or.inl hloc) (by decide)
+      (by intro r hr; cases hr; decide) hu
+    rw [hn1] at hr
+    exact ⟨u, _, _, hu, hr, by decide, by decide⟩
+  · have hg : gitUrlToBzrUrl [104, 116, 116, 112, 115, 58, 47, 47, 104, 47, 114] none (some headsPrefix) =
+        .ok [104, 116, 116, 112, 115, 58, 47, 47, 104, 47, 114] := by
+      unfold gitUrlToBzrUrl gitUrlToBzrUrlG
+      simp only [hloc, addRefParams, hn2]
+      rfl
+    have hr := url_roundtrip _ _ none (some headsPrefix) _ (Or.inl hloc) (by decide)
+      (by intro r hr; cases hr; decide) hg
+    rw [hn2] at hr
+    exact ⟨_, _, _, hg, hr, by decide, by decide⟩
 
 /-! ### 7. parent location -/
 
@@ -574,6 +727,76 @@ theorem parent_location_roundtrip (c c' : Cfg) (name loc t : Str) (b : Option St
           cfgGet_set_same]
         simp only [decodeStrict_encode hte]
         rfl
+
+/-- **the unnamed branch.**  A branch without a name (detached `HEAD`) has no
+`[branch "<name>"]` section to keep a merge ref in: after `set_parent(loc)`,
+where `loc` splits into `(t, b, r)`, `get_parent` returns the breezy URL of `t`
+alone — the branch / ref of `loc` is not kept. -/
+theorem parent_location_unnamed (c c' : Cfg) (loc t : Str) (b : Option Str) (r : Option NBytes)
+    (hsplit : bzrUrlToGitUrl loc = .ok (t, b, r)) (hset : setParent c [] loc = .ok c')
+    (hm : cfgGet c (bBranch, [], bMerge) = none) :
+    getParentLocation c' [] = (gitUrlToBzrUrl t none (some headRef)).map some := by
+  unfold setParent at hset
+  have hnm : encodeUtf8 false [] = some [] := rfl
+  simp only [hnm, hsplit] at hset
+  cases hte : encodeUtf8 false t with
+  | none => simp [hte] at hset
+  | some te =>
+    simp only [hte, if_true, Except.ok.injEq] at hset
+    subst hset
+    have k21 : ∀ x : NBytes, (bRemote, x, bFetch) ≠ (bBranch, ([] : NBytes), bRemote) := by
+      intro x h; simp [Prod.ext_iff, bBranch, bRemote] at h
+    have k11 : ∀ x : NBytes, (bRemote, x, bUrl) ≠ (bBranch, ([] : NBytes), bRemote) := by
+      intro x h; simp [Prod.ext_iff, bBranch, bRemote] at h
+    have k2u : ∀ x : NBytes, (bRemote, x, bFetch) ≠ (bRemote, x, bUrl) := by
+      intro x h; simp [Prod.ext_iff, bFetch, bUrl] at h
+    have k2m : ∀ x : NBytes, (bRemote, x, bFetch) ≠ (bBranch, ([] : NBytes), bMerge) := by
+      intro x h; simp [Prod.ext_iff, bBranch, bRemote] at h
+    have k1m : ∀ x : NBytes, (bRemote, x, bUrl) ≠ (bBranch, ([] : NBytes), bMerge) := by
+      intro x h; simp [Prod.ext_iff, bBranch, bRemote] at h
+    unfold getParentLocation
+    simp only [hnm]
+    unfold getParentWith
+    have horigin : getOrigin (cfgSet (cfgSet c (bRemote, getOrigin c [], bUrl) te)
+        (bRemote, getOrigin c [], bFetch) (fetchA ++ getOrigin c [] ++ fetchB)) [] = getOrigin c [] := by
+      unfold getOrigin
+      rw [cfgGet_set_other _ _ _ _ (k21 _), cfgGet_set_other _ _ _ _ (k11 _)]
+    simp only [horigin]
+    rw [cfgGet_set_other _ _ _ _ (k2u _), cfgGet_set_same, cfgGet_set_other _ _ _ _ (k2m _),
+      cfgGet_set_other _ _ _ _ (k1m _), hm]
+    simp only [decodeStrict_encode hte]
+    rfl
+
+/-- excluded family of `hname`, as the code behaves: on an unnamed branch
+`set_parent("https://h/r,branch=foo")` is followed by `get_parent() ==
+"https://h/r"` -/
+theorem parent_location_unnamed_witness :
+    ∃ c', setParent [] []
+        ([104, 116, 116, 112, 115, 58, 47, 47, 104, 47, 114] ++ [44] ++ kBranch ++ [61, 102, 111, 111]) = .ok c' ∧
+      getParentLocation c' [] = .ok (some [104, 116, 116, 112, 115, 58, 47, 47, 104, 47, 114]) := by
+  have hs : bzrUrlToGitUrl ([104, 116, 116, 112, 115, 58, 47, 47, 104, 47, 114] ++ [44] ++ kBranch ++
+      [61, 102, 111, 111]) = .ok ([104, 116, 116, 112, 115, 58, 47, 47, 104, 47, 114], some [102, 111, 111], none) :=
+    url_roundtrip [104, 116, 116, 112, 115, 58, 47, 47, 104, 47, 114]
+      [104, 116, 116, 112, 115, 58, 47, 47, 104, 47, 114] (some [102, 111, 111]) none _
+      (Or.inl (by decide)) (by decide) (by intro r hr; cases hr) rfl
+  have e2 : encodeUtf8 false [104, 116, 116, 112, 115, 58, 47, 47, 104, 47, 114] =
+      some [104, 116, 116, 112, 115, 58, 47, 47, 104, 47, 114] := by decide
+  have hset : setParent [] []
+      ([104, 116, 116, 112, 115, 58, 47, 47, 104, 47, 114] ++ [44] ++ kBranch ++ [61, 102, 111, 111]) =
+      .ok [((bRemote, bOrigin, bUrl), [104, 116, 116, 112, 115, 58, 47, 47, 104, 47, 114]),
+           ((bRemote, bOrigin, bFetch), fetchA ++ bOrigin ++ fetchB)] := by
+    unfold setParent
+    have hnm : encodeUtf8 false [] = some [] := rfl
+    simp only [hnm, hs, e2]
+    rfl
+  refine ⟨_, hset, ?_⟩
+  rw [parent_location_unnamed [] _ _ _ _ _ hs hset rfl]
+  have hn : normLoc [104, 116, 116, 112, 115, 58, 47, 47, 104, 47, 114] =
+      .url [104, 116, 116, 112, 115, 58, 47, 47, 104, 47, 114] := by decide
+  have hnb : normBR none (some headRef) = (none, none) := by simp [normBR]
+  unfold gitUrlToBzrUrl gitUrlToBzrUrlG
+  simp only [hn, addRefParams, hnb]
+  rfl
 
 /-- the code as found (F14) reads the merge ref from `[branch "<remote>"]`:
 after `set_parent("https://h/r,branch=foo")` on branch `master` the correct
@@ -709,7 +932,7 @@ comma-free location and any branch name not starting with `refs/` or any ref
 satisfying `refOk`): `set_parent(u)` followed by `get_parent()` returns `u`. -/
 theorem parent_location_roundtrip_url (c c' : Cfg) (name loc' : Str) (branch : Option Str)
     (ref : Option NBytes) (u : Str) (hname : name ≠ [])
-    (hnorm : normLoc loc' = .url loc' ∨ normLoc loc' = .unchanged) (hc : 44 ∉ loc')
+    (hnorm : normLoc loc' = .url loc' ∨ normLoc loc' = .unchanged) (hc : lastSegCommaFree loc' = true)
     (hb : ∀ r, ref = some r → isBytes r = true) (hok : refOk ref = true)
     (hbr : ∀ n, branch = some n → refsSlash.isPrefixOf n = false)
     (h : gitUrlToBzrUrl loc' branch ref = .ok u) (hset : setParent c name u = .ok c') :
@@ -730,9 +953,151 @@ theorem parent_location_roundtrip_url (c c' : Cfg) (name loc' : Str) (branch : O
     ← gitUrlToBzrUrl_eq_addRefParams loc' branch ref hnorm hx, h]
   rfl
 
-example : normLoc [104, 116, 116, 112, 115, 58, 47, 47, 104, 47, 114] =
-    .url [104, 116, 116, 112, 115, 58, 47, 47, 104, 47, 114] ∧
-    (44 ∉ [104, 116, 116, 112, 115, 58, 47, 47, 104, 47, 114]) ∧
+/-- non-vacuity: `https://h/a,b/r` has a comma, but not in its last segment -/
+example : normLoc [104, 116, 116, 112, 115, 58, 47, 47, 104, 47, 97, 44, 98, 47, 114] =
+    .url [104, 116, 116, 112, 115, 58, 47, 47, 104, 47, 97, 44, 98, 47, 114] ∧
+    lastSegCommaFree [104, 116, 116, 112, 115, 58, 47, 47, 104, 47, 97, 44, 98, 47, 114] = true ∧
     refsSlash.isPrefixOf [97, 47, 98] = false := by decide
+
+/-! ### 8. the configuration file between `set_parent` and `get_parent` -/
+
+/-- **a value survives `write_to_file` + `from_file`.**  Every byte string that
+`cfgValueSafe` admits — no carriage return; and, unless it is quoted anyway
+(leading/trailing blank or a `#`), no `;` and no vertical tab / form feed at
+either end — is read back by dulwich's `_parse_string` exactly as
+`_format_string` was given it. -/
+theorem cfg_value_roundtrip (v : NBytes) (hs : cfgValueSafe v = true) : cfgReread v = some v := by
+  unfold cfgValueSafe at hs
+  simp only [Bool.and_eq_true, Bool.not_eq_eq_eq_not, Bool.not_true, Bool.or_eq_true, bne_iff_ne, ne_eq] at hs
+  obtain ⟨h13, hrest⟩ := hs
+  have h13' : 13 ∉ v := by
+    intro h; rw [← List.contains_iff_mem] at h; rw [h] at h13; cases h13
+  unfold cfgReread cfgParse cfgFormat
+  by_cases hq : cfgNeedsQuote v = true
+  · simp only [hq, if_true]
+    have hw : trimWs (32 :: (34 :: cfgEscape v ++ [34]) ++ [10]) = 34 :: cfgEscape v ++ [34] :=
+      trimWs_wrap _ (by intro c hc; simp at hc; subst hc; decide)
+        (by
+          intro c hc
+          have : (34 :: cfgEscape v ++ [34]).getLast? = some 34 := by
+            rw [show (34 :: cfgEscape v ++ [34]) = (34 :: cfgEscape v) ++ [34] from rfl, List.getLast?_append]
+            rfl
+          rw [this] at hc
+          simp only [Option.some.injEq] at hc
+          subst hc; decide)
+    rw [hw]
+    have : cfgParseGo false false [] (34 :: cfgEscape v ++ [34]) = cfgParseGo true false [] (cfgEscape v ++ [34]) := by
+      simp [cfgParseGo]
+    rw [this]
+    exact go_quoted v h13'
+  · simp only [hq, Bool.false_eq_true, if_false]
+    simp only [hq, Bool.false_eq_true, false_or] at hrest
+    obtain ⟨⟨⟨⟨h59, hh11⟩, hh12⟩, hl11⟩, hl12⟩ := hrest
+    have h59' : 59 ∉ v := by
+      intro h; rw [← List.contains_iff_mem] at h; rw [h] at h59; cases h59
+    unfold cfgNeedsQuote at hq
+    simp only [Bool.or_eq_true, beq_iff_eq, not_or] at hq
+    obtain ⟨⟨⟨⟨hh32, hh9⟩, hl32⟩, hl9⟩, h35⟩ := hq
+    have h35' : 35 ∉ v := by
+      intro h; rw [← List.contains_iff_mem] at h; exact h35 h
+    have hhead : ∀ c, (cfgEscape v).head? = some c → isWs c = false := by
+      intro c hc
+      obtain ⟨b, hb, hcase⟩ := cfgEscape_head v c hc
+      rcases hcase with rfl | ⟨rfl, n13, n10, n9⟩
+      · decide
+      · have n32 : c ≠ 32 := fun e => hh32 (by rw [hb, e])
+        have n11 : c ≠ 11 := fun e => hh11 (by rw [hb, e])
+        have n12 : c ≠ 12 := fun e => hh12 (by rw [hb, e])
+        simp only [isWs, Bool.or_eq_false_iff, Bool.and_eq_false_iff, decide_eq_false_iff_not]
+        omega
+    have hlast : ∀ c, (cfgEscape v).getLast? = some c → isWs c = false := by
+      intro c hc
+      obtain ⟨b, hb, hcase⟩ := cfgEscape_last v c hc
+      rcases hcase with h | ⟨rfl, n13, n10, n9⟩
+      · simp only [isWs, Bool.or_eq_false_iff, Bool.and_eq_false_iff, decide_eq_false_iff_not]
+        omega
+      · have n32 : c ≠ 32 := fun e => hl32 (by rw [hb, e])
+        have n11 : c ≠ 11 := fun e => hl11 (by rw [hb, e])
+        have n12 : c ≠ 12 := fun e => hl12 (by rw [hb, e])
+        simp only [isWs, Bool.or_eq_false_iff, Bool.and_eq_false_iff, decide_eq_false_iff_not]
+        omega
+    rw [trimWs_wrap _ hhead hlast]
+    have := go_unquoted v [] h13' h35' h59' hl32 (fun _ => rfl)
+    simpa using this
+
+example : cfgValueSafe [114, 101, 102, 115, 47, 104, 101, 97, 100, 115, 47, 97, 32, 34, 92, 98] = true ∧
+    cfgValueSafe [32, 97, 59, 35] = true ∧ cfgValueSafe [] = true := by decide
+
+/-- excluded families, as dulwich behaves today: an unquoted `;` starts a
+comment (`refs/heads/a;b` comes back as `refs/heads/a`), a carriage return comes
+back as backslash + `r`, a leading form feed is stripped -/
+theorem cfg_value_witness :
+    cfgReread [97, 59, 98] = some [97] ∧ cfgValueSafe [97, 59, 98] = false ∧
+    cfgReread [97, 13, 98] = some [97, 92, 114, 98] ∧ cfgValueSafe [97, 13, 98] = false ∧
+    cfgReread [12, 97] = some [97] ∧ cfgValueSafe [12, 97] = false := by decide
+
+/-- the whole configuration is read back as written when every value is safe -/
+theorem cfg_file_roundtrip : ∀ (c : Cfg), c.all (fun kv => cfgValueSafe kv.2) = true → cfgRereadAll c = some c
+  | [], _ => rfl
+  | (k, v) :: rest, h => by
+    simp only [List.all_cons, Bool.and_eq_true] at h
+    simp only [cfgRereadAll, cfg_value_roundtrip v h.1, cfg_file_roundtrip rest h.2]
+
+/-- `_unescape_subsection(_escape_subsection(n)) == n` for every section name
+(the branch name in `[branch "<name>"]`) -/
+theorem subsection_roundtrip : ∀ (n : NBytes), subsecUnescape (subsecEscape n) = n
+  | [] => by simp [subsecEscape, replaceByte, subsecUnescape]
+  | x :: rest => by
+    have ih := subsection_roundtrip rest
+    have hcons : subsecEscape (x :: rest) =
+        (if x = 92 then [92, 92] else if x = 34 then [92, 34] else [x]) ++ subsecEscape rest := by
+      have h : ∀ l : List Nat, x :: l = [x] ++ l := fun _ => rfl
+      unfold subsecEscape
+      rw [h rest]
+      simp only [replaceByte_append]
+      congr 1
+      unfold replaceByte
+      by_cases h1 : x = 92
+      · subst h1; simp
+      · by_cases h2 : x = 34
+        · subst h2; simp
+        · simp [h1, h2]
+    rw [hcons]
+    by_cases h1 : x = 92
+    · subst h1; simp [subsecUnescape, ih]
+    · by_cases h2 : x = 34
+      · subst h2; simp [subsecUnescape, ih]
+      · simp only [h1, h2, if_false, List.cons_append, List.nil_append]
+        cases hr : subsecEscape rest with
+        | nil => rw [hr] at ih; simp [subsecUnescape, ← ih]
+        | cons d ds => rw [hr] at ih; simp [subsecUnescape, h1, ih]
+
+/-- **Parent location round trip through the configuration file.**  As
+`parent_location_roundtrip_url`, with the configuration `set_parent` produced
+written by `ConfigFile.write_to_file` and read again by `from_file` before
+`get_parent` looks at it: whenever every stored value is one dulwich reads back
+unchanged (`cfgValueSafe`: in particular no `;` in the URL or the ref). -/
+theorem parent_location_roundtrip_file (c c' : Cfg) (name loc' : Str) (branch : Option Str)
+    (ref : Option NBytes) (u : Str) (hname : name ≠ [])
+    (hnorm : normLoc loc' = .url loc' ∨ normLoc loc' = .unchanged) (hc : lastSegCommaFree loc' = true)
+    (hb : ∀ r, ref = some r → isBytes r = true) (hok : refOk ref = true)
+    (hbr : ∀ n, branch = some n → refsSlash.isPrefixOf n = false)
+    (h : gitUrlToBzrUrl loc' branch ref = .ok u) (hset : setParent c name u = .ok c')
+    (hsafe : c'.all (fun kv => cfgValueSafe kv.2) = true) :
+    (cfgRereadAll c').map (fun c'' => getParentLocation c'' name) = some (.ok (some u)) := by
+  rw [cfg_file_roundtrip c' hsafe]
+  simp only [Option.map_some, Option.some.injEq]
+  exact parent_location_roundtrip_url c c' name loc' branch ref u hname hnorm hc hb hok hbr h hset
+
+/-- the file-level hypothesis is needed: the merge ref `set_parent` stores for
+the branch `a;b` is cut at the `;` when the file is read again, and is then the
+ref of the branch `a` -/
+theorem parent_location_semicolon_witness :
+    cfgRereadAll [((bBranch, [109], bMerge), headsPrefix ++ [97, 59, 98])] =
+        some [((bBranch, [109], bMerge), headsPrefix ++ [97])] ∧
+      refToBranchName (some (headsPrefix ++ [97, 59, 98])) = .ok (some [97, 59, 98]) ∧
+      refToBranchName (some (headsPrefix ++ [97])) = .ok (some [97]) :=
+  ⟨by decide, branch_ref_roundtrip [97, 59, 98] _ (by decide) (by decide),
+    branch_ref_roundtrip [97] _ (by decide) (by decide)⟩
 
 end BreezyVerif.C36
